@@ -1828,6 +1828,9 @@ class Surface(SplineGeometry):
             if arg < degree + 1:
                 raise GeomdlException("Number of control points should be at least degree + 1")
 
+        if len(args) == 2 and len(ctrlpts) != args[0] * args[1]:
+            raise GeomdlException("Number of control points does not match the sizes in the u- and v-directions")
+
         if len(ctrlpts[0]) < 2:
             raise GeomdlException("A surface should be at least 2-dimensional")
 
@@ -2908,6 +2911,9 @@ class Volume(SplineGeometry):
                 raise GeomdlException("Set the degree first")
             if arg < degree + 1:
                 raise GeomdlException("Number of control points should be at least degree + 1")
+
+        if len(args) == 3 and len(ctrlpts) != args[0] * args[1] * args[2]:
+            raise GeomdlException("Number of control points does not match the sizes in the u-, v- and w-directions")
 
         if len(ctrlpts[0]) < 3:
             raise GeomdlException("A volume should be at least 3-dimensional")
